@@ -140,6 +140,33 @@ class ClassInfo:
 
         return [self] + merge([b.mro() for b in self.bases] + [list(self.bases)])
 
+    def stored_attrs(self) -> set:
+        """Names X for which some method of this class (or a repository base class) stores `self.X`, plus
+        dataclass fields and class-level assignments."""
+        out: set = set()
+        for c in self.mro():
+            for f in c.own_fields:
+                out.add(f.name)
+            for st in c.node.body:
+                if isinstance(st, (ast.Assign, ast.AnnAssign)):
+                    for t in (st.targets if isinstance(st, ast.Assign) else [st.target]):
+                        if isinstance(t, ast.Name):
+                            out.add(t.id)
+            for fi in list(c.methods.values()) + list(c.properties.values()):
+                selfname = fi.params[0] if fi.params else "self"
+                for n in ast.walk(fi.node):
+                    if isinstance(n, ast.Attribute) and isinstance(n.ctx, ast.Store) and isinstance(n.value, ast.Name) and n.value.id == selfname:
+                        out.add(n.attr)
+        return out
+
+    def require_attrs(self, names: Any, who: str = "") -> None:
+        """The hand-written symbolic instance of this class names its fields as today's source does; if the source
+        no longer stores one of them the model no longer describes the class -> anchor vanished (exit 2)."""
+        have = self.stored_attrs()
+        missing = sorted(n for n in names if n not in have)
+        if missing:
+            raise AnalysisError(f"anchor vanished: {self.name} no longer stores attribute(s) {missing}{' (' + who + ')' if who else ''}")
+
     def find_method(self, name: str) -> Optional[FunctionInfo]:
         for c in self.mro():
             if name in c.methods:
